@@ -67,14 +67,23 @@ def run(tier):
             plan.append((a["id"], b["id"], mode, tol, {"what": what, "scale": scale, "shift": shift}))
     # Zooming is the one algorithm that compares coordinates: far-away and tiny images, fast-refining parameters
     for (kind, Kk, D) in (("bin", 2, 1), ("dbin", 2, 2), ("kary", 3, 1), ("kary", 2, 2)):
-        for (scale, shift) in ((1.0, 1048576.0), (1.0, 4096.0), (2.0 ** -40, 0.0), (1.0, -65536.0)):
+        for (scale, shift) in ((1.0, 1048576.0), (1.0, 4096.0), (2.0 ** -40, 0.0), (1.0, -65536.0), (1.0, 2.0 ** 30), (1.0, -(2.0 ** 36))):
             k += 2
-            base = {"algo": "Zooming", "kind": kind, "K": Kk, "D": D, "n": 300, "T": 300, "prm": {"nu": 4, "rho": 0.5}, "pattern": rnd.choice(PC2.SAFE_PATTERNS), "seed": rnd.randrange(1 << 30)}
+            base = {"algo": "Zooming", "kind": kind, "K": Kk, "D": D, "n": 300, "T": 300, "prm": rnd.choice([{"nu": 4, "rho": 0.5}, {"nu": 64, "rho": 0.5}, {"nu": 32, "rho": 0.7}]), "pattern": rnd.choice(PC2.SAFE_PATTERNS), "seed": rnd.randrange(1 << 30)}
             box = DYADIC_BOXES[D][0]
             if kind == "kary" and Kk == 3 and shift != 0.0:
                 continue          # linspace thirds are not translation-exact
             jobs += [dict(base, id=6000000 + k, box=box), dict(base, id=6000001 + k, box=image(box, scale, shift))]
             plan.append((6000000 + k, 6000001 + k, "exact", 0, {"what": "scale2k" if shift == 0.0 else "translate-dyadic", "scale": scale, "shift": shift}))
+    # midpoint partitions cut exactly through the arm (cut and centre are the same float in every image), so
+    # Zooming's containment decisions survive inexact maps there: compared on structure and positions
+    for (kind, Kk, D) in (("bin", 2, 1), ("bin", 2, 2), ("dbin", 2, 2), ("bin", 2, 3)):
+        for (scale, shift) in ((3.0, 0.43), (1.0, 0.1), (4.42, 0.49), (0.7, -12.3)):
+            k += 2
+            base = {"algo": "Zooming", "kind": kind, "K": Kk, "D": D, "n": 200, "T": 200, "prm": {"nu": 4, "rho": 0.5}, "pattern": rnd.choice(PC2.SAFE_PATTERNS), "seed": rnd.randrange(1 << 30)}
+            box = DYADIC_BOXES[D][0]
+            jobs += [dict(base, id=6000000 + k, box=box), dict(base, id=6000001 + k, box=image(box, scale, shift))]
+            plan.append((6000000 + k, 6000001 + k, "approx", 3, {"what": "approx", "scale": scale, "shift": shift}))
     res = {t["id"]: t for t in S.pmap(S.run_session, jobs)}
     pairs = [PC2.pair(i + 1, res[a], res[b], mode=mode, tol=tol, info=info) for i, (a, b, mode, tol, info) in enumerate(plan)]
     chk.validate("Trace_Pair.tla", "Trace_Pair.cfg", pairs, "affine", own=["pair."], nontrivial=lambda p: len(p["a"]) > 40)
